@@ -12,6 +12,7 @@ mod looped;
 mod monitor;
 mod oracle;
 mod sdk;
+mod store;
 mod xmlapi;
 
 use crate::core::{RunCtx, Tier, harness_error};
